@@ -566,6 +566,14 @@ func runScen(w *world, g *hx.Gen, sc scen) {
 			w.harnessFail("the gated registration did not reach ctl.regproxy.after_run")
 			return
 		}
+		// a server-chosen port of the held registration: the manager remembers it under the proxy's name
+		// (read now: session 1's proxy of the same name overwrites the memory)
+		heldChoice := ""
+		if subj.hasPort() && subj.port == 0 {
+			if p, ok := w.reservedPort(subj); ok {
+				heldChoice = fmt.Sprintf("(Some %d)", p)
+			}
+		}
 		// the resources of the held registration exist although its name is not registered: a second
 		// proxy of the same kind and name is refused by the keyed table itself (no model step: the
 		// model's registration is atomic; nothing of this attempt may remain)
@@ -604,8 +612,8 @@ func runScen(w *world, g *hx.Gen, sc scen) {
 			w.harnessFail("ping round trip failed")
 			return
 		}
-		w.recordNew(s2, subj, code2, m.(*msg.NewProxyResp).Error, code2 != -12, noObs)
-		w.recordNew(s1, rival, respCode(rival, resp1), resp1.Error, true, w.observe())
+		w.recordNew(s2, subj, code2, m.(*msg.NewProxyResp).Error, code2 != -12, noObs, heldChoice)
+		w.recordNew(s1, rival, respCode(rival, resp1), resp1.Error, true, w.observe(), "")
 		if subj.port > 0 {
 			checkPortFree(subj, subj.port)
 		}
@@ -664,8 +672,8 @@ func runScen(w *world, g *hx.Gen, sc scen) {
 			w.harnessFail("ping round trip failed")
 			return
 		}
-		w.recordNew(s1, twin, respCode(twin, resp1), resp1.Error, true, noObs)
-		w.recordNew(s2, subj, code2, m.(*msg.NewProxyResp).Error, true, w.observe())
+		w.recordNew(s1, twin, respCode(twin, resp1), resp1.Error, true, noObs, "")
+		w.recordNew(s2, subj, code2, m.(*msg.NewProxyResp).Error, true, w.observe(), "")
 		w.closeProxy(s1, "subj")
 		w.pair(iPre, w.last())
 		if !mustOK(w.newProxy(s2, finalReq, npOpts{}), "reregister-refused:"+sc.label()) {
